@@ -1191,7 +1191,12 @@ class CreateTableOp(MigrateOperation):
 
         return cls(
             table.name,
-            list(table.c) + list(table.constraints),
+            list(table.c)
+            + [
+                const
+                for const in table.constraints
+                if not sqla_compat._is_type_bound(const)
+            ],
             schema=table.schema,
             _namespace_metadata=_namespace_metadata,
             # given a Table() object, this Table will contain full Index()
